@@ -21,6 +21,8 @@ type c14Stack struct {
 	sim  *SimStore
 	// lookup returns what the store itself holds for a path: exists, isDir, bytes
 	lookup func(p string) (bool, bool, []byte)
+	// attrs returns the permission bits and the modification time (Unix seconds) the store holds for a path
+	attrs func(p string) (hackpadfs.FileMode, int64)
 }
 
 func c14Build(t *T, kind int, plan *faultPlan) *c14Stack {
@@ -44,6 +46,12 @@ func c14Build(t *T, kind int, plan *faultPlan) *c14Stack {
 				return true, true, nil
 			}
 			return true, false, r.data.Bytes()
+		}, attrs: func(p string) (hackpadfs.FileMode, int64) {
+			r, ok := st.recs[p]
+			if !ok {
+				return 0, 0
+			}
+			return r.mode.Perm(), r.modTime.Unix()
 		}}
 	default:
 		fs, g := newGatedMemFS(t, plan)
@@ -60,6 +68,12 @@ func c14Build(t *T, kind int, plan *faultPlan) *c14Stack {
 				return true, false, nil
 			}
 			return true, false, d.Bytes()
+		}, attrs: func(p string) (hackpadfs.FileMode, int64) {
+			r, err := g.inner.Get(context.Background(), p)
+			if err != nil {
+				return 0, 0
+			}
+			return r.Mode().Perm(), r.ModTime().Unix()
 		}}
 	}
 }
@@ -87,10 +101,17 @@ func storeView(st *c14Stack, cands []string) string {
 		if !ok {
 			continue
 		}
+		// permission bits always; the modification time where a Chtimes of the history set it (those times are
+		// 1e9 + step; everything else is "when it was made" on the bubble's clock, which starts in the year 2000)
+		perm, mtime := st.attrs(p)
+		when := ""
+		if mtime >= 1e9 && mtime < 1e9+100000 {
+			when = fmt.Sprint(" mtime=", mtime)
+		}
 		if dir {
-			fmt.Fprintf(&b, "%s d\n", p)
+			fmt.Fprintf(&b, "%s d %04o%s\n", p, perm, when)
 		} else {
-			fmt.Fprintf(&b, "%s f %d %x\n", p, len(data), hashStr(string(data)))
+			fmt.Fprintf(&b, "%s f %d %x %04o%s\n", p, len(data), hashStr(string(data)), perm, when)
 		}
 	}
 	return b.String()
@@ -261,7 +282,10 @@ func runC14(t *T) {
 				case o.H == "" && o.Mutating() && openPath != "" && (related(o.P, openPath) || (o.Kind == "Rename" && related(o.Q, openPath))):
 					undisturbed = false
 				}
-				if faulted && plan.fired == firedBefore && openPath != "" && openRDWR && undisturbed && (o.H == "HWrite" || o.H == "HTruncate") && !resultFailed(o, res) && hs.h != nil {
+				// (after the lie "does not exist" only a Write is judged: the call that was lied to may rightly have taken the
+				// file for unlinked and kept its change to itself -- any outcome of that one call is accepted -- and a later
+				// Truncate to the length the handle already has is a success with nothing to store)
+				if faulted && plan.fired == firedBefore && openPath != "" && openRDWR && undisturbed && (o.H == "HWrite" || (o.H == "HTruncate" && plan.getErr == nil)) && !resultFailed(o, res) && hs.h != nil {
 					// a later, fault-free modification through the handle that reported success: the file read by name
 					// now holds what the handle holds (one bad answer from the store must not have become handle state)
 					hb := make([]byte, 4096)
